@@ -17,6 +17,7 @@ executed trace is returned for the evidence file.
 import random
 
 import contextlib
+import enum
 import io
 import numpy as np
 
@@ -27,6 +28,13 @@ ID_NAMES = ["c0", "c1", "c2", "c3", "c4", "k", "x", "y"]
 ODD_NAMES = ["a b", "1x", "items", "count", "sort", "nrow", "keys", "update", "values",
              # names of class-level attributes (not methods) of the frame class, and the empty name
              "COLUMN_PLACEHOLDER", "ATTRIBUTES", "ncol", "columns", ""]
+
+class _Tag(str):
+    """A str subclass, as libraries use for tagged / validated strings."""
+
+class _Color(enum.StrEnum):
+    RED = "red"
+    GREEN = "green"
 
 class Monitors:
 
@@ -406,6 +414,12 @@ class Program:
                     if vv.ndim != 0: vv = v
                 if form == "len1-vector":
                     v = np.asarray(vv)[0]
+                if rng.random() < 0.08:
+                    # a scalar of a subclass of str (an enum.StrEnum member, a tagged string): one string, not a sequence of characters
+                    vv = rng.choice([_Tag("red"), _Color.GREEN, _Tag(""), _Tag("x")])
+                    v = str.__str__(vv)
+                    form = "str-subclass"
+                    self.mon.count("scalar-of-str-subclass")
                 via = rng.choice(["item", "item", "item", "setdefault", "ior"])
                 if via == "setdefault" and name in names:
                     via = "item"
